@@ -536,19 +536,13 @@ def every_handler_returns_its_reply(ctx):
             continue      # never reached (C07.R2c)
         ctx.analysed(f)
         cfg = CFG(f.node, m, f.module)
-        bad = []
-        for a, lab in cfg.pred.get(cfg.exit, []):
-            st = cfg.nodes[a].ast
-            if lab == 'exc':
-                continue
-            v = st.value if isinstance(st, ast.Return) else None
-            good = v is not None and (isinstance(v, (ast.Tuple, ast.Call)) or (isinstance(v, ast.IfExp) and isinstance(v.body, ast.Tuple) and isinstance(v.orelse, ast.Tuple))
-                                      or isinstance(v, ast.Name))
-            if not good:
-                bad.append(st)
-        ctx.check(not bad, f'{f.qualname}:returns a reply on every normal exit', bad[0] if bad and bad[0] is not None else f.node,
+        def good(r):
+            v = r.value
+            return isinstance(v, (ast.Tuple, ast.Call, ast.Name)) or (isinstance(v, ast.IfExp) and isinstance(v.body, ast.Tuple) and isinstance(v.orelse, ast.Tuple))
+        bad = [f.node] if can_end_without_value(cfg, f.node, good) else []
+        ctx.check(not bad, f'{f.qualname}:returns a reply on every normal exit', f.node,
                   'all normal exits return a triple',
-                  f'{name} can return None (after `{src(bad[0]) if bad and bad[0] is not None else "its last statement"}`): the request gets no reply line', f)
+                  f'{name} can end without returning a reply triple: the request gets no reply line', f)
 
 
 @rule('C07.R3c', min_instances=3)
